@@ -113,3 +113,15 @@ class OpaqueLog:
 
     def of(self, obj=None, method=None):
         return [c for c in self.calls if (obj is None or c[0] is obj) and (method is None or c[1] == method)]
+
+
+def state_attr(obj, name, init=0):
+    """Name of the private attribute of `obj` that plays the role the contract knows as `name`: the name itself if the
+    object still has it, else the single private attribute whose value after construction is `init` (an int counter that
+    was renamed).  Undecided if that does not identify one."""
+    if name in obj.attrs:
+        return name
+    cands = [k for k, v in obj.attrs.items() if k.startswith('_') and type(v) is type(init) and v == init]
+    if len(cands) == 1:
+        return cands[0]
+    raise Unsupported('contract out of date: no attribute of %s plays the role of %r' % (obj.cls.name, name))
